@@ -4,7 +4,7 @@
 //! through the crate's `BC64` trait, each shadowed by a `[bool; 64]`
 //! membership model that uses plain loops and the documented deck order.
 
-use crate::cardsref::{alias_spelling, card_bit, card_name, card_word, spelling, spellings, ASCII_SEPARATORS, CARD_MASK, JUNK, SEPARATORS, TAILS};
+use crate::cardsref::{alias_spelling, card_bit, card_name, card_word, spelling, spellings, separator, ASCII_SEPARATORS, CARD_MASK, JUNK, SEPARATORS, SEPARATOR_RUN_STYLES, TAILS};
 use crate::json::J;
 use crate::rng::{fold, Rng, FNV_OFFSET};
 use crate::sim::{at, Obs, Outcome, Violation, World};
@@ -114,6 +114,7 @@ const PROBE_LIST: &[&str] = &[
     "text_tab_or_newline_separator",
     "text_leading_or_trailing_space",
     "text_non_ascii_unicode_whitespace_or_vertical_tab",
+    "text_gap_is_a_run_of_two_to_five_whitespace_characters_any_of_the_25",
     "text_outline_glyph",
     "text_zero_for_ten",
     "text_lowercase_spelling",
@@ -205,6 +206,7 @@ struct P {
     text_tabnl: usize,
     text_leadtrail: usize,
     text_unicode_ws: usize,
+    text_ws_run: usize,
     text_outline: usize,
     text_zero: usize,
     text_lower: usize,
@@ -290,6 +292,7 @@ fn probes() -> &'static P {
         text_tabnl: pi("text_tab_or_newline_separator"),
         text_leadtrail: pi("text_leading_or_trailing_space"),
         text_unicode_ws: pi("text_non_ascii_unicode_whitespace_or_vertical_tab"),
+        text_ws_run: pi("text_gap_is_a_run_of_two_to_five_whitespace_characters_any_of_the_25"),
         text_outline: pi("text_outline_glyph"),
         text_zero: pi("text_zero_for_ten"),
         text_lower: pi("text_lowercase_spelling"),
@@ -529,12 +532,11 @@ fn observed_slots(reg: &Reg) -> Option<([u8; 7], usize)> {
 pub fn text_of(tokens: &[Tok], seps: &[u8], lead: u8, trail: u8) -> String {
     let mut s = String::new();
     if lead > 0 {
-        s.push_str(SEPARATORS[(lead as usize - 1) % SEPARATORS.len()]);
+        s.push_str(&separator(lead - 1, 0));
     }
     for (i, t) in tokens.iter().enumerate() {
         if i > 0 {
-            let sep = seps.get(i - 1).copied().unwrap_or(0) as usize % SEPARATORS.len();
-            s.push_str(SEPARATORS[sep]);
+            s.push_str(&separator(seps.get(i - 1).copied().unwrap_or(0), i - 1));
         }
         match t {
             Tok::Card { idx, spell, tail } => {
@@ -546,7 +548,7 @@ pub fn text_of(tokens: &[Tok], seps: &[u8], lead: u8, trail: u8) -> String {
         }
     }
     if trail > 0 {
-        s.push_str(SEPARATORS[(trail as usize - 1) % SEPARATORS.len()]);
+        s.push_str(&separator(trail - 1, tokens.len()));
     }
     s
 }
@@ -737,7 +739,7 @@ impl C15 {
                     if tokens.len() > 7 {
                         obs.hit(p.text_gt7);
                     }
-                    let used = || seps.iter().take(tokens.len().saturating_sub(1)).map(|s| *s as usize % SEPARATORS.len());
+                    let used = || seps.iter().take(tokens.len().saturating_sub(1)).map(|s| *s as usize);
                     if used().any(|s| (2..ASCII_SEPARATORS).contains(&s)) {
                         obs.hit(p.text_tabnl);
                     }
@@ -746,6 +748,9 @@ impl C15 {
                     }
                     if *lead > 0 || *trail > 0 {
                         obs.hit(p.text_leadtrail);
+                    }
+                    if used().any(|s| s >= SEPARATORS.len()) || (*lead as usize > SEPARATORS.len()) || (*trail as usize > SEPARATORS.len()) {
+                        obs.hit(p.text_ws_run);
                     }
                     obs.cell(cell(kind, m.cards(), false, (junk as usize) * 2 + rep as usize));
                     regs[d] = v;
@@ -1471,7 +1476,16 @@ impl<'a> Gen<'a> {
             .map(|_| match class {
                 0 | 1 => 0,
                 2 => self.rng.below(ASCII_SEPARATORS as u64) as u8,
-                _ => self.rng.below(SEPARATORS.len() as u64) as u8,
+                _ => {
+                    // one of the 28 single separators, or (three gaps in four) a run of several
+                    // whitespace characters; one draw either way
+                    let v = self.rng.below(28 * 4 + 200);
+                    if v < 256 {
+                        v as u8
+                    } else {
+                        ((v - 256) % 28) as u8
+                    }
+                }
             })
             .collect();
         (toks, seps)
@@ -1564,7 +1578,7 @@ impl World for C15 {
                         let edge = |g: &mut Gen| -> u8 {
                             match g.rng.below(12) {
                                 0 => 1,
-                                1 => 1 + g.rng.below(SEPARATORS.len() as u64) as u8,
+                                1 => 1 + g.rng.below(255) as u8,
                                 _ => 0,
                             }
                         };
@@ -1768,6 +1782,26 @@ impl World for C15 {
                     Op::Drain { r: 3 },
                 ],
             ));
+        }
+        // runs of whitespace: every White_Space character next to every other one, in both orders,
+        // doubled, beside ASCII blanks, around line breaks, in runs of three to five — between
+        // tokens, before the first and after the last. 26 cards give 25 gaps, so that in one text
+        // the character chosen by the code meets all 25 partners.
+        for style in 0..SEPARATOR_RUN_STYLES {
+            for a in 0..25usize {
+                let code = (28 + 25 * style + a) as u8;
+                let toks: Vec<Tok> = (0..26u8).map(|i| Tok::Card { idx: ((a as u8) * 2 + i * 3) % 52, spell: (i + style as u8) % 12, tail: 0 }).collect();
+                out.push((
+                    format!("whitespace runs style {} with character #{}", style, a),
+                    vec![
+                        Op::BuildText { dst: 0, tokens: toks.clone(), seps: vec![code; 25], lead: 0, trail: 0 },
+                        Op::Count { r: 0 },
+                        Op::BuildText { dst: 1, tokens: toks[..3].to_vec(), seps: vec![code, code], lead: code + 1, trail: code + 1 },
+                        Op::Count { r: 1 },
+                        Op::Drain { r: 0 },
+                    ],
+                ));
+            }
         }
         // card tokens with every tail, short and long (C12: a token is a card iff it starts with rank+suit)
         for t in 1..TAILS.len() as u8 {
